@@ -939,6 +939,189 @@ func TestProp(t *testing.T) {
 			}
 			s.Report(t, f)
 		})
+
+	run.Check("stress", 400, 6000,
+		"long single-writer histories under the race detector: 2..4 writer goroutines cycle a drawn pattern of Store/Delete/Load/LoadOrStore/LoadAndDelete over their own 1..4 keys for 200..4000 operations while a disturber goroutine forces dirty-map rebuilds and promotions (fresh-key Store + Range/Length + Delete); invariants: every key read by its only writer holds that writer's last write, final contents = union of the writers' last states, quiescent Length; non-trivial = pattern contains a delete followed later by a store; distinct by plan",
+		func(t *rapid.T, s *rt.Section) {
+			c := StressCase{Writers: rapid.IntRange(2, 4).Draw(t, "writers"), Keys: rapid.IntRange(1, 4).Draw(t, "keys"),
+				Rounds: rapid.SampledFrom([]int{200, 600, 1500, 4000}).Draw(t, "rounds"), Disturb: rapid.IntRange(0, 2).Draw(t, "disturb")}
+			n := rapid.IntRange(2, 6).Draw(t, "plen")
+			for i := 0; i < n; i++ {
+				c.Pattern = append(c.Pattern, rapid.SampledFrom([]int{0, 0, 1, 1, 2, 2, 3, 4}).Draw(t, "op"))
+			}
+			s.Eval()
+			b, _ := json.Marshal(c)
+			h := rt.HashBytes(b)
+			del := false
+			for _, op := range append(c.Pattern, c.Pattern...) {
+				if op == 1 || op == 4 {
+					del = true
+				} else if del && (op == 0 || op == 3) {
+					s.NonTrivial(h)
+					break
+				}
+			}
+			s.Sample(h, c)
+			s.Report(t, checkStress(c, s))
+		})
+}
+
+// ---------------------------------------------------------------------------
+// stress: long single-writer histories — each writer goroutine owns its keys (so it knows what every one of its
+// keys must hold after each of its own operations), while a disturber forces dirty-map rebuilds and promotions
+// (Store of a fresh key, Range, Delete).  The invariants need no global order: a key written only by one goroutine
+// must read back that goroutine's last write (or be absent after its delete) at every moment, and the final
+// contents must be the union of the writers' last states.
+
+type StressCase struct {
+	Writers int   `json:"writers"`
+	Keys    int   `json:"keys"`   // keys per writer
+	Rounds  int   `json:"rounds"` // operations per writer
+	Pattern []int `json:"pattern"` // op codes cycled by every writer: 0 Store 1 Delete 2 Load 3 LoadOrStore 4 LoadAndDelete
+	Disturb int   `json:"disturb"` // 0 fresh-key store+range+delete, 1 store+length, 2 range only
+}
+
+func checkStress(c StressCase, s *rt.Section) *rt.Failure {
+	m := &ds.ValueMap{}
+	var wg sync.WaitGroup
+	var failMu sync.Mutex
+	var fail string
+	setFail := func(msg string) {
+		failMu.Lock()
+		if fail == "" {
+			fail = msg
+		}
+		failMu.Unlock()
+	}
+	stop := make(chan struct{})
+	final := make([]map[string]int, c.Writers)
+	for w := 0; w < c.Writers; w++ {
+		wg.Add(1)
+		go func(w int) {
+			defer wg.Done()
+			defer func() {
+				if r := recover(); r != nil {
+					setFail(fmt.Sprintf("panic in writer %d: %v", w, r))
+				}
+			}()
+			state := map[string]int{}
+			val := w*1_000_000 + 1
+			for i := 0; i < c.Rounds; i++ {
+				k := fmt.Sprintf("w%d_%d", w, i%c.Keys)
+				switch c.Pattern[i%len(c.Pattern)] {
+				case 0:
+					val++
+					m.Store(k, ds.NewIntVal(ds.IntType(val)))
+					state[k] = val
+				case 1:
+					m.Delete(k)
+					delete(state, k)
+				case 2:
+					got, ok := m.Load(k)
+					want, wok := state[k]
+					gi, _ := intOf(got)
+					if ok != wok || (ok && gi != want) {
+						setFail(fmt.Sprintf("writer %d op %d: Load(%s) = (%d,%v) but its own last write left (%d,%v)", w, i, k, gi, ok, want, wok))
+						return
+					}
+				case 3:
+					val++
+					act, loaded := m.LoadOrStore(k, ds.NewIntVal(ds.IntType(val)))
+					want, wok := state[k]
+					gi, _ := intOf(act)
+					if loaded != wok || (loaded && gi != want) || (!loaded && gi != val) {
+						setFail(fmt.Sprintf("writer %d op %d: LoadOrStore(%s) = (%d,%v), own state (%d,%v)", w, i, k, gi, loaded, want, wok))
+						return
+					}
+					if !wok {
+						state[k] = val
+					}
+				case 4:
+					got, loaded := m.LoadAndDelete(k)
+					want, wok := state[k]
+					gi, _ := intOf(got)
+					if loaded != wok || (loaded && gi != want) {
+						setFail(fmt.Sprintf("writer %d op %d: LoadAndDelete(%s) = (%d,%v), own state (%d,%v)", w, i, k, gi, loaded, want, wok))
+						return
+					}
+					delete(state, k)
+				}
+			}
+			final[w] = state
+		}(w)
+	}
+	var dg sync.WaitGroup
+	dg.Add(1)
+	go func() {
+		defer dg.Done()
+		n := 0
+		for {
+			select {
+			case <-stop:
+				return
+			default:
+			}
+			n++
+			k := fmt.Sprintf("fresh_%d", n%3)
+			switch c.Disturb {
+			case 0:
+				m.Store(k, ds.NewIntVal(1))
+				m.Range(func(string, *ds.VMValue) bool { return true })
+				m.Delete(k)
+			case 1:
+				m.Store(k, ds.NewIntVal(1))
+				_ = m.Length()
+				m.Delete(k)
+			default:
+				m.Range(func(string, *ds.VMValue) bool { return true })
+			}
+		}
+	}()
+	wg.Wait()
+	close(stop)
+	dg.Wait()
+	if fail != "" {
+		return s.NewFailure("single-writer-keys", "stress:own-write-lost", c, fail, "a key written by one goroutine only always reads back that goroutine's last write")
+	}
+	want := map[string]int{}
+	for _, st := range final {
+		for k, v := range st {
+			want[k] = v
+		}
+	}
+	got, dup, _ := rangeAll(m)
+	for k := range got {
+		if strings.HasPrefix(k, "fresh_") {
+			delete(got, k)
+		}
+	}
+	if dup != "" || !mapsEqual(got, want) {
+		return s.NewFailure("quiescent", "stress:final-contents", c, fmt.Sprintf("%d keys, e.g. %s", len(got), clipMap(got, want)), fmt.Sprintf("%d keys (union of the writers' last states)", len(want)))
+	}
+	extra := 0
+	for i := 0; i < 3; i++ {
+		if _, ok := m.Load(fmt.Sprintf("fresh_%d", i)); ok {
+			extra++
+		}
+	}
+	if n := m.Length(); n != len(want)+extra {
+		return s.NewFailure("quiescent", "model:Length", c, fmt.Sprintf("quiescent Length()=%d", n), fmt.Sprint(len(want)+extra))
+	}
+	return nil
+}
+
+func clipMap(got, want map[string]int) string {
+	for k, v := range want {
+		if g, ok := got[k]; !ok || g != v {
+			return fmt.Sprintf("key %s is (%d,%v), want %d", k, g, ok, v)
+		}
+	}
+	for k, v := range got {
+		if _, ok := want[k]; !ok {
+			return fmt.Sprintf("unexpected key %s=%d", k, v)
+		}
+	}
+	return "?"
 }
 
 func bucket(n int) int {
@@ -966,6 +1149,18 @@ func TestReplay(t *testing.T) {
 				return s.NewFailure("replay", "replay:bad-case", nil, err.Error(), "")
 			}
 			return checkScript(c, s)
+		},
+		"stress": func(b []byte, s *rt.Section) *rt.Failure {
+			var c StressCase
+			if err := json.Unmarshal(b, &c); err != nil || c.Writers < 1 || c.Keys < 1 || len(c.Pattern) == 0 {
+				return s.NewFailure("replay", "replay:bad-case", nil, "bad stress case", "")
+			}
+			for i := 0; i < 30; i++ {
+				if f := checkStress(c, s); f != nil {
+					return f
+				}
+			}
+			return nil
 		},
 		"conc": func(b []byte, s *rt.Section) *rt.Failure {
 			var c ConcCase
